@@ -451,13 +451,18 @@ const (
 	scSSORedirectS
 	scSSOServerURLS
 	scUpIPS
+	// the rest of the redis section: not part of the random mutations (scNumSCore); see cases (h)
+	scRedisPwS
+	scRedisUserS
 	scNumS
 )
+
+const scNumSCore = scRedisPwS
 
 var scFlagNames = [scNumS]string{"openid.provider", "encryption-key", "ingress", "cookie.same-site", "openid.client-id",
 	"openid.client-jwk", "openid.client-secret", "openid.well-known-url", "openid.id-token-signing-alg", "openid.acr-values",
 	"openid.ui-locales", "redis.address", "redis.uri", "sso.mode", "sso.session-cookie-name", "sso.domain",
-	"sso.server-default-redirect-url", "sso.server-url", "upstream-ip"}
+	"sso.server-default-redirect-url", "sso.server-url", "upstream-ip", "redis.password", "redis.username"}
 
 const (
 	scSecureT = iota
@@ -465,10 +470,16 @@ const (
 	scUpPortT
 	scGracefulT
 	scWaitBeforeT
+	// the rest of the redis section (see cases (h)); redis.tls has the flag default TRUE
+	scRedisTLST
+	scRedisIdleT
 	scNumT
 )
 
-var scTFlagNames = [scNumT]string{"cookie.secure", "sso.enabled", "upstream-port", "shutdown-graceful-period", "shutdown-wait-before-period"}
+const scNumTCore = scRedisTLST
+
+var scTFlagNames = [scNumT]string{"cookie.secure", "sso.enabled", "upstream-port", "shutdown-graceful-period", "shutdown-wait-before-period",
+	"redis.tls", "redis.connection-idle-timeout"}
 
 var scPenvNames = [7]string{"IDPORTEN_CLIENT_ID", "IDPORTEN_CLIENT_JWK", "IDPORTEN_WELL_KNOWN_URL", "AZURE_APP_CLIENT_ID",
 	"AZURE_APP_JWK", "AZURE_APP_WELL_KNOWN_URL", "AZURE_APP_CLIENT_JWK"}
@@ -519,8 +530,8 @@ func (c *scCase) argvEnv() (args []string, env []string) {
 			env = append(env, scWenvName(scTFlagNames[i])+"="+c.T[i][1].Text)
 		}
 	}
-	// constant, outside the modelled space: the harness's miniredis speaks plain TCP
-	args = append(args, "--redis.tls=false")
+	// (redis.tls is a setting of the case like any other: the valid bases carry --redis.tls=false because the harness's
+	// miniredis speaks plain TCP; the cases of group (h) leave it at its default / put it on either channel)
 	return
 }
 
@@ -552,11 +563,14 @@ func scHexList(l []string) []string {
 // model input line
 func (c *scCase) line(d scDisc, oj, ored, ofetch []string) string {
 	toks := []string{"cfrun", scVariant, "|"}
-	for i := 0; i < scNumS; i++ {
+	for i := 0; i < scNumSCore; i++ {
 		toks = append(toks, scTok(c.S[i][0]), scTok(c.S[i][1]))
 	}
 	for i := 0; i < 7; i++ {
 		toks = append(toks, scTok(c.P[i]))
+	}
+	for i := scNumSCore; i < scNumS; i++ {
+		toks = append(toks, scTok(c.S[i][0]), scTok(c.S[i][1]))
 	}
 	toks = append(toks, "|")
 	for i := 0; i < scNumT; i++ {
@@ -591,6 +605,7 @@ var scJwkEC = `{"kty":"EC","crv":"P-256","x":"MKBCTNIcKUSDii11ySs3526iDZ8AiTo7Tu
 var scBools = []scTyped{{"true", false, 1}, {"false", false, 0}, {"1", false, 1}, {"0", false, 0}, {"T", false, 1}, {"maybe", true, 0}}
 var scPorts = []scTyped{{"8080", false, 8080}, {"0", false, 0}, {"-1", false, -1}, {"1", false, 1}, {"65535", false, 65535},
 	{"65536", false, 65536}, {"0x50", false, 80}, {"abc", true, 0}}
+var scIdles = []scTyped{{"30", false, 30}, {"-1", false, -1}, {"0", false, 0}, {"0x10", false, 16}, {"soon", true, 0}}
 var scDurs = []scTyped{{"5s", false, 5e9}, {"0s", false, 0}, {"1s", false, 1e9}, {"1m", false, 60e9}, {"-1s", false, -1e9},
 	{"-2s", false, -2e9}, {"30s", false, 30e9}, {"1ns", false, 1}, {"abc", true, 0}, {"5", true, 0}}
 
@@ -602,6 +617,12 @@ func scCheckTypedTables() error {
 		}
 	}
 	for _, t := range scPorts {
+		v, err := strconv.ParseInt(t.Text, 0, 64)
+		if (err != nil) != t.Bad || (err == nil && v != t.Val) {
+			return fmt.Errorf("int table entry %q disagrees with strconv.ParseInt", t.Text)
+		}
+	}
+	for _, t := range scIdles {
 		v, err := strconv.ParseInt(t.Text, 0, 64)
 		if (err != nil) != t.Bad || (err == nil && v != t.Val) {
 			return fmt.Errorf("int table entry %q disagrees with strconv.ParseInt", t.Text)
@@ -695,8 +716,20 @@ func (g *scGen) pick(l []string) string { return l[g.rng.Intn(len(l))] }
 
 // a configuration that satisfies every rule, for the given mode (0 standalone, 1 sso server, 2 sso proxy) and provider
 func (g *scGen) validBase(mode int, provider string) *scCase {
+	return g.validBaseCh(mode, provider, func() int { return g.rng.Intn(2) }) // flag or WONDERWALL_ variable, per setting
+}
+
+// newCase: an empty case. The harness's miniredis speaks plain TCP, so every case starts with --redis.tls=false (cases that
+// are about the redis section itself change that)
+func (g *scGen) newCase() *scCase {
 	c := &scCase{Disc: g.discOK}
-	ch := func() int { return g.rng.Intn(2) } // flag or WONDERWALL_ variable
+	c.T[scRedisTLST][0] = &scTyped{"false", false, 0}
+	return c
+}
+
+// validBaseCh: ch chooses the channel of every setting (0 flag, 1 WONDERWALL_ variable)
+func (g *scGen) validBaseCh(mode int, provider string, ch func() int) *scCase {
+	c := g.newCase()
 	c.S[scIngressS][ch()] = sp("https://app.example.com")
 	wk := g.prov.url(g.discOK)
 	if provider != "openid" {
@@ -815,14 +848,14 @@ func (g *scGen) mutateTyped(c *scCase, i int) {
 }
 
 func (g *scGen) mutate(c *scCase) string {
-	k := g.rng.Intn(scNumS + scNumT + 2)
+	k := g.rng.Intn(scNumSCore + scNumTCore + 2)
 	switch {
-	case k < scNumS:
+	case k < scNumSCore:
 		g.mutateString(c, k)
 		return scFlagNames[k]
-	case k < scNumS+scNumT:
-		g.mutateTyped(c, k-scNumS)
-		return scTFlagNames[k-scNumS]
+	case k < scNumSCore+scNumTCore:
+		g.mutateTyped(c, k-scNumSCore)
+		return scTFlagNames[k-scNumSCore]
 	default:
 		c.Disc = g.discIDs[g.rng.Intn(len(g.discIDs))]
 		return "disc"
@@ -845,7 +878,7 @@ func (g *scGen) cases(tier string) []*scCase {
 	// (b) hand-written documented scenarios
 	{
 		// the documentation's Azure variable names, literally
-		c := &scCase{Disc: g.discOK}
+		c := g.newCase()
 		c.S[scProviderS][0] = sp("azure")
 		c.S[scIngressS][0] = sp("https://app.example.com")
 		c.P[3], c.P[6], c.P[5] = sp("client-id"), sp(scJwkEC), sp(g.prov.url(g.discOK))
@@ -871,7 +904,7 @@ func (g *scGen) cases(tier string) []*scCase {
 	}
 	// (c) every pool value of every string setting on the flag and on the variable, from a valid base of every mode
 	for mode := 0; mode < 3; mode++ {
-		for i := 0; i < scNumS; i++ {
+		for i := 0; i < scNumSCore; i++ {
 			for _, v := range g.pools[i] {
 				for chn := 0; chn < 2; chn++ {
 					if tier != "thorough" && g.rng.Intn(3) != 0 && !(chn == 0 && mode == 0) {
@@ -884,7 +917,7 @@ func (g *scGen) cases(tier string) []*scCase {
 				}
 			}
 		}
-		for i := 0; i < scNumT; i++ {
+		for i := 0; i < scNumTCore; i++ {
 			tab := scDurs
 			if i <= scSSOEnabledT {
 				tab = scBools
@@ -1020,6 +1053,113 @@ func (g *scGen) cases(tier string) []*scCase {
 					}
 				}
 			}
+		}
+	}
+	out = append(out, g.storeCases(tier)...)
+	return out
+}
+
+// (h) "SSO modes need a shared store": for both SSO modes (and standalone as the control) x every way of supplying the
+// settings (all on flags / all on WONDERWALL_ variables), the store settings redis.address and redis.uri absent or
+// supplied EMPTY, alone and together with each of the other settings of the redis section (redis.password,
+// redis.username, redis.tls, redis.connection-idle-timeout) - none of which names a store. redis.tls is NOT forced to
+// false here: absent (flag default true), true, false, on either channel. No connection to Redis is made in these cases
+// (no store is configured), except in the controls with redis.uri (whose scheme decides about TLS, not redis.tls).
+func (g *scGen) storeCases(tier string) []*scCase {
+	var out []*scCase
+	type rest struct {
+		name string
+		set  func(c *scCase, chn int)
+	}
+	tv := func(tab []scTyped, text string) *scTyped {
+		for _, t := range tab {
+			if t.Text == text {
+				t := t
+				return &t
+			}
+		}
+		panic("no typed table entry " + text)
+	}
+	rests := []rest{
+		{"nothing else of the redis section", func(c *scCase, chn int) {}},
+		{"redis.password", func(c *scCase, chn int) { c.S[scRedisPwS][chn] = sp("hunter2") }},
+		{"redis.username", func(c *scCase, chn int) { c.S[scRedisUserS][chn] = sp("wonderwall") }},
+		{"redis.tls=true", func(c *scCase, chn int) { c.T[scRedisTLST][chn] = tv(scBools, "true") }},
+		{"redis.tls=false", func(c *scCase, chn int) { c.T[scRedisTLST][chn] = tv(scBools, "false") }},
+		{"redis.connection-idle-timeout=30", func(c *scCase, chn int) { c.T[scRedisIdleT][chn] = tv(scIdles, "30") }},
+		{"redis.connection-idle-timeout=-1", func(c *scCase, chn int) { c.T[scRedisIdleT][chn] = tv(scIdles, "-1") }},
+		{"redis.tls=false redis.password", func(c *scCase, chn int) {
+			c.T[scRedisTLST][chn] = tv(scBools, "false")
+			c.S[scRedisPwS][chn] = sp("hunter2")
+		}},
+		{"redis.password redis.username redis.tls=true redis.connection-idle-timeout=30", func(c *scCase, chn int) {
+			c.S[scRedisPwS][chn], c.S[scRedisUserS][chn] = sp("hunter2"), sp("wonderwall")
+			c.T[scRedisTLST][chn], c.T[scRedisIdleT][chn] = tv(scBools, "true"), tv(scIdles, "30")
+		}},
+	}
+	type store struct {
+		name string
+		set  func(c *scCase, chn int)
+	}
+	stores := []store{
+		{"redis.address and redis.uri absent", func(c *scCase, chn int) {}},
+		{"redis.address empty", func(c *scCase, chn int) { c.S[scRedisAddrS][chn] = sp("") }},
+		{"redis.uri empty", func(c *scCase, chn int) { c.S[scRedisURIS][chn] = sp("") }},
+		{"redis.address and redis.uri empty", func(c *scCase, chn int) { c.S[scRedisAddrS][chn], c.S[scRedisURIS][chn] = sp(""), sp("") }},
+	}
+	chName := []string{"flags", "WONDERWALL_ variables"}
+	for _, mode := range []int{1, 2, 0} {
+		for chn := 0; chn < 2; chn++ {
+			chn := chn
+			for si, st := range stores {
+				for ri, rs := range rests {
+					// quick tier, standalone control: the diagonal only
+					if mode == 0 && tier != "thorough" && (si+ri)%4 != chn {
+						continue
+					}
+					c := g.validBaseCh(mode, scProviders[(si+ri+mode)%3], func() int { return chn })
+					c.S[scRedisAddrS], c.S[scRedisURIS] = [2]*string{nil, nil}, [2]*string{nil, nil}
+					c.T[scRedisTLST] = [2]*scTyped{nil, nil}
+					st.set(c, chn)
+					rs.set(c, chn)
+					c.Note = fmt.Sprintf("store mode=%d via %s: %s; %s", mode, chName[chn], st.name, rs.name)
+					out = append(out, c)
+				}
+			}
+			// a malformed member of the redis section is refused like every malformed typed setting
+			for _, bad := range []struct {
+				i   int
+				tab []scTyped
+				txt string
+			}{{scRedisTLST, scBools, "maybe"}, {scRedisIdleT, scIdles, "soon"}} {
+				c := g.validBaseCh(mode, "openid", func() int { return chn })
+				c.T[bad.i] = [2]*scTyped{nil, nil}
+				c.T[bad.i][chn] = tv(bad.tab, bad.txt)
+				if bad.i != scRedisTLST && chn == 1 {
+					c.T[scRedisTLST] = [2]*scTyped{nil, tv(scBools, "false")}
+				}
+				c.Note = fmt.Sprintf("store mode=%d via %s: malformed %s", mode, chName[chn], scTFlagNames[bad.i])
+				out = append(out, c)
+			}
+			if mode == 0 {
+				continue
+			}
+			// controls: a store named by redis.uri with redis.tls left at its default (the URI scheme decides), and by
+			// redis.address with redis.tls=false on the same channel as everything else
+			c := g.validBaseCh(mode, "openid", func() int { return chn })
+			c.S[scRedisAddrS], c.S[scRedisURIS] = [2]*string{nil, nil}, [2]*string{nil, nil}
+			c.T[scRedisTLST] = [2]*scTyped{nil, nil}
+			c.S[scRedisURIS][chn] = sp("redis://" + g.redisAddr)
+			c.T[scRedisIdleT][chn] = tv(scIdles, "30")
+			c.Note = fmt.Sprintf("store mode=%d via %s: redis.uri, redis.tls at its default, redis.connection-idle-timeout=30", mode, chName[chn])
+			out = append(out, c)
+			c = g.validBaseCh(mode, "openid", func() int { return chn })
+			c.S[scRedisAddrS], c.S[scRedisURIS] = [2]*string{nil, nil}, [2]*string{nil, nil}
+			c.T[scRedisTLST] = [2]*scTyped{nil, nil}
+			c.S[scRedisAddrS][chn] = sp(g.redisAddr)
+			c.T[scRedisTLST][chn] = tv(scBools, "false")
+			c.Note = fmt.Sprintf("store mode=%d via %s: redis.address, redis.tls=false", mode, chName[chn])
+			out = append(out, c)
 		}
 	}
 	return out
